@@ -750,6 +750,11 @@ class LinkRemove:
         r = run.call(lambda: lst.__delitem__(key))
         run.expect_ok(r, "link_remove_" + attr)
         del ml[pos]
+        if not ml and run.profile.masked("stale_linklist_handle"):
+            # known finding F14: other live handles of the owner keep a stale view of a link list
+            # that was emptied (its HDF5 group is removed); do not use them afterwards
+            run.pool.pop(id(owner), None)
+            run.stats["masked:stale_linklist_handle"] += 1
         run.stats["links_removed"] += 1
         return res(OK, touch={owner.id: "may"}, target=owner, )
 
@@ -1181,3 +1186,61 @@ def check_ids_unique(run, site):
         if set(seen) != want:
             run.violation("id_unique", site, "id_changed", "ids in file differ from ids recorded at creation: "
                           "%r" % sorted(set(seen) ^ want)[:4])
+
+
+# ------------------------------------------------------------------------------------------
+# alias oracle (C05 / C02): every access path shows the same entity with the same content
+# ------------------------------------------------------------------------------------------
+WALKERS = {"block": K.walk_block, "group": K.walk_group, "array": K.walk_array, "frame": K.walk_frame,
+           "tag": K.walk_tag, "mtag": K.walk_mtag, "source": K.walk_source, "section": K.walk_section,
+           "prop": K.walk_prop, "feature": K.walk_feature}
+
+
+def observe_all_paths(run, m, site, oracle="alias_view"):
+    """Fetch m through every route (name, id, index, negative index, every pooled handle, every
+    link that targets it) and compare what each handle shows with the model."""
+    if getattr(m, "dead", False) or m.kind not in WALKERS:
+        return
+    fn = WALKERS[m.kind]
+    want = fn(m)
+    handles = []
+    for via in (0, 1, 2, 3):
+        handles.append(("via%d" % via, run.R(m, via)))
+    for j, h in enumerate(list(run.pool.get(id(m), []))[:6]):
+        handles.append(("pooled", h))
+    for owner, attr, is_list in run.linkers(m):
+        oh = run.R(owner, 0)
+        try:
+            h = getattr(oh, attr)[m.id] if is_list else getattr(oh, attr)
+        except Exception as e:  # noqa
+            run.violation(oracle, site, "%s:link_%s_raises" % (m.kind, attr), repr(e))
+        handles.append(("link:" + attr, h))
+        for oh2 in list(run.pool.get(id(owner), []))[:3]:
+            try:
+                h = getattr(oh2, attr)[m.id] if is_list else getattr(oh2, attr)
+            except Exception as e:  # noqa
+                run.violation(oracle, site, "%s:pooled_owner_link_%s_raises" % (m.kind, attr), repr(e))
+            handles.append(("pooled_owner_link:" + attr, h))
+    for label, h in handles:
+        got = fn(h)
+        d = K.deep_diff(got, want)
+        if d is not None:
+            run.violation(oracle, site, "%s:%s:%s" % (m.kind, label.split(":")[0], K.diff_class(d)),
+                          "through %s at %s: real=%s model=%s" % (label, d[0], d[1], d[2]))
+    run.stats["alias_observations"] += len(handles)
+
+
+@op("observe")
+class Observe:
+    def gen(self, run, rng):
+        kinds = [k for k in WALKERS if run.enum(k)]
+        if not kinds:
+            return None
+        return {"op": "observe", "kind": P.pick(rng, kinds), "i": idx(rng)}
+
+    def do(self, run, o):
+        m = run.pick(o["kind"], o["i"])
+        if m is None:
+            return res(NOOP)
+        observe_all_paths(run, m, "observe")
+        return res(OK)
